@@ -41,6 +41,9 @@ pub(crate) fn kick_fd<V: VringT<M>>(v: &V) -> Option<RawFdT> {
     v.get_ref().get_kick().as_ref().map(|k| k.as_raw_fd())
 }
 pub(crate) type RawFdT = std::os::unix::io::RawFd;
+pub(crate) fn call_fd<V: VringT<M>>(v: &V) -> Option<RawFdT> {
+    v.get_ref().call.as_ref().map(|c| c.as_raw_fd())
+}
 pub(crate) fn is_started<V: VringT<M>>(v: &V) -> bool {
     v.get_ref().get_queue().ready()
 }
